@@ -40,7 +40,7 @@ Notation params := (gmap string Qc).
 Global Instance udefv_eq_dec : EqDecision udefv.
 Proof. solve_decision. Defined.
 
-Inductive err := EDim | EUndef | EValue | EKey | ERedef | EZero | EOther.
+Inductive err := EDim | EUndef | EValue | EKey | ERedef | EZero | EAssert | EOther.
 Global Instance err_eq_dec : EqDecision err.
 Proof. solve_decision. Defined.
 Definition res (A : Type) : Type := (err + A)%type.
@@ -395,17 +395,44 @@ Definition probe_effect (qk : quirks) (cfg : regcfg) (s : rstate) (q : probe) : 
   end.
 
 (** * [_redefine] and [_switch_context_cache_and_units] *)
+(** [parse_unit_name] restricted to what the generated registries contain (no prefixes): the
+    name itself, and — plural suffix — the name without a trailing "s" (stems of one letter are
+    skipped).  [_redefine] asserts that exactly one reading exists. *)
+Fixpoint plural_stem (s : string) : option string :=
+  match s with
+  | EmptyString => None
+  | String c EmptyString => if Ascii.eqb c "s"%char then Some EmptyString else None
+  | String c r => match plural_stem r with Some t => Some (String c t) | None => None end
+  end.
+Definition redefine_target (tbl : string → option udefv) (name : string) : res string :=
+  let direct := match tbl name with Some _ => true | None => false end in
+  let stem := match plural_stem name with
+              | Some t => if Nat.eqb (String.length t) 1 then None
+                          else match tbl t with Some _ => Some t | None => None end
+              | None => None
+              end in
+  match direct, stem with
+  | true, Some _ => inl EAssert          (* two readings: [assert len(candidates_no_prefix) == 1] *)
+  | true, None => inr name
+  | false, Some t => inr t
+  | false, None => inl EUndef
+  end.
+
 Definition redefine1 (cfg : regcfg) (below : string → option udefv) (ov : utable)
     (rd : string * udefv) : res utable :=
   let tbl := λ k, match ov !! k with Some d => Some d | None => below k end in
-  match tbl rd.1 with
-  | None => inl EUndef
-  | Some bd =>
-      if ud_is_base bd then inl EValue else
-      match dim_ofl cfg tbl (ud_ref bd), dim_ofl cfg tbl (ud_ref rd.2) with
-      | inl e, _ => inl e
-      | _, inl e => inl e
-      | inr a, inr b => if bool_decide (a = b) then inr (<[rd.1 := rd.2]> ov) else inl EValue
+  match redefine_target tbl rd.1 with
+  | inl e => inl e
+  | inr name =>
+      match tbl name with
+      | None => inl EUndef
+      | Some bd =>
+          if ud_is_base bd then inl EValue else
+          match dim_ofl cfg tbl (ud_ref bd), dim_ofl cfg tbl (ud_ref rd.2) with
+          | inl e, _ => inl e
+          | _, inl e => inl e
+          | inr a, inr b => if bool_decide (a = b) then inr (<[name := rd.2]> ov) else inl EValue
+          end
       end
   end.
 Fixpoint redefine_all (cfg : regcfg) (below : string → option udefv) (ov : utable)
